@@ -32,7 +32,7 @@ use crate::key_exchange::traits::{
 use crate::key_exchange::tripledh::NonceLen;
 use crate::keypair::{KeyPair, PrivateKey, PublicKey, SecretKey};
 use crate::ksf::Ksf;
-use crate::messages::{CredentialRequestLen, RegistrationUploadLen};
+use crate::messages::{check_canonical_elem, CredentialRequestLen, RegistrationUploadLen};
 use crate::serialization::Input;
 use crate::{
     CredentialFinalization, CredentialRequest, CredentialResponse, RegistrationRequest,
@@ -248,9 +248,13 @@ impl<CS: CipherSuite> ClientRegistration<CS> {
         let checked_slice =
             check_slice_size(input, client_len + element_len, "client_registration")?;
 
+        let blinded_element =
+            voprf::BlindedElement::<CS::OprfCs>::deserialize(&checked_slice[client_len..])?;
+        check_canonical_elem::<CS>(&checked_slice[client_len..], blinded_element.value())?;
+
         Ok(Self {
             oprf_client: voprf::OprfClient::deserialize(&checked_slice[..client_len])?,
-            blinded_element: voprf::BlindedElement::deserialize(&checked_slice[client_len..])?,
+            blinded_element,
         })
     }
 
